@@ -83,53 +83,78 @@ theorem convert_rows {db : Db} (hdb : ∀ r ∈ db.units, r.WF) {u w : Sym} {ru 
     simp only [h2]
     exact convRows_eq wu ww x
 
-/-- `_ConvertMatchingExp` on two such units: the plain (affine) conversion for exponent 1, otherwise a
-scaling by the ratio of the slopes raised to the exponent; it never fails -/
+/-- `_ConvertMatchingExp` on two such units: the plain (affine) conversion for the same unit and for
+exponent 1 outside a derived operand, otherwise a scaling by the ratio of the slopes raised to the exponent
+(for exponent 1 without offset the plain conversion IS that scaling); it never fails -/
 theorem convertMatchingExp_rows {db : Db} (hdb : ∀ r ∈ db.units, r.WF) {u w : Sym} {ru rw : UnitRow}
-    (hu : UnitOK db u ru) (hw : UnitOK db w rw) (hq : rw.qtype = ru.qtype) (exp : Int) (v : Rat) :
-    convertMatchingExp db ru.qtype u w exp v
-      = .ok (if exp = 1 ∨ u = w then convVal ru rw v else v * (rowSlope ru / rowSlope rw) ^ exp) := by
+    (hu : UnitOK db u ru) (hw : UnitOK db w rw) (hq : rw.qtype = ru.qtype) (exp : Int) (v : Rat) (inD : Bool) :
+    convertMatchingExp db ru.qtype u w exp v inD
+      = .ok (if u = w ∨ (exp = 1 ∧ inD = false) then convVal ru rw v else v * (rowSlope ru / rowSlope rw) ^ exp) := by
   have wu := hdb _ (unitBySym_mem hu.row)
   have ww := hdb _ (unitBySym_mem hw.row)
   unfold convertMatchingExp
-  by_cases hc : exp = 1 ∨ u = w
-  · have : (exp == 1 || u == w) = true := by
-      rcases hc with h | h <;> simp [h]
+  by_cases hc : u = w ∨ (exp = 1 ∧ inD = false)
+  · have : (u == w || (exp == 1 && !inD)) = true := by
+      rcases hc with h | h
+      · simp [h]
+      · simp [h.1, h.2]
     simp only [this, ↓reduceIte, hc]
     exact convert_rows hdb hu hw hq v
-  · have : (exp == 1 || u == w) = false := by
-      simp only [not_or] at hc
-      simp [hc.1, hc.2]
+  · have : (u == w || (exp == 1 && !inD)) = false := by
+      simp only [not_or, not_and] at hc
+      obtain ⟨h1, h2⟩ := hc
+      by_cases he : exp = 1
+      · have := h2 he; simp [h1, he, this]
+      · simp [h1, he]
     simp only [this, Bool.false_eq_true, ↓reduceIte, hc]
-    rw [convert_rows hdb hu hw hq 1, convert_rows hdb hu hw hq 0]
+    rw [convert_rows hdb hu hw hq 0]
     simp only
-    have e : convVal ru rw 1 - convVal ru rw 0 = rowSlope ru / rowSlope rw := by
-      rw [convVal_affine wu ww 1]; ring
-    rw [e]
-    unfold scaleByPow
-    have hne : rowSlope ru / rowSlope rw ≠ 0 :=
-      div_ne_zero (ne_of_gt (rowSlope_pos wu)) (ne_of_gt (rowSlope_pos ww))
-    simp [hne, zpowR_eq]
+    by_cases hz : exp = 1 ∧ convVal ru rw 0 = 0
+    · have : (exp == 1 && convVal ru rw 0 == 0) = true := by simp [hz.1, hz.2]
+      simp only [this, ↓reduceIte]
+      rw [convert_rows hdb hu hw hq v, convVal_affine wu ww v, hz.2, hz.1]
+      simp
+    · have : (exp == 1 && convVal ru rw 0 == 0) = false := by
+        simp only [not_and] at hz
+        by_cases he : exp = 1
+        · have := hz he; simp [he, this]
+        · simp [he]
+      simp only [this, Bool.false_eq_true, ↓reduceIte]
+      rw [convert_rows hdb hu hw hq 1]
+      simp only
+      have e : convVal ru rw 1 - convVal ru rw 0 = rowSlope ru / rowSlope rw := by
+        rw [convVal_affine wu ww 1]; ring
+      rw [e]
+      unfold scaleByPow
+      have hne : rowSlope ru / rowSlope rw ≠ 0 :=
+        div_ne_zero (ne_of_gt (rowSlope_pos wu)) (ne_of_gt (rowSlope_pos ww))
+      simp [hne, zpowR_eq]
 
-/-- for units without offset every step is the scaling -/
+/-- inside a derived operand, for an exponent other than 1, and for units without offset, every step is
+the scaling -/
 theorem convertMatchingExp_scale {db : Db} (hdb : ∀ r ∈ db.units, r.WF) {u w : Sym} {ru rw : UnitRow}
-    (hu : UnitOK db u ru) (hw : UnitOK db w rw) (hq : rw.qtype = ru.qtype)
-    (h0 : ru.toBase.p = 0) (h1 : rw.toBase.p = 0) (exp : Int) (v : Rat) :
-    convertMatchingExp db ru.qtype u w exp v = .ok (v * (rowSlope ru / rowSlope rw) ^ exp) := by
+    (hu : UnitOK db u ru) (hw : UnitOK db w rw) (hq : rw.qtype = ru.qtype) (exp : Int) (v : Rat) (inD : Bool)
+    (hsc : inD = true ∨ exp ≠ 1 ∨ (ru.toBase.p = 0 ∧ rw.toBase.p = 0)) :
+    convertMatchingExp db ru.qtype u w exp v inD = .ok (v * (rowSlope ru / rowSlope rw) ^ exp) := by
   have wu := hdb _ (unitBySym_mem hu.row)
   have ww := hdb _ (unitBySym_mem hw.row)
   rw [convertMatchingExp_rows hdb hu hw hq]
-  by_cases hc : exp = 1 ∨ u = w
-  · simp only [hc, ↓reduceIte]
-    rw [convVal_affine wu ww, convVal_zero ww h0 h1]
-    rcases hc with h | h
-    · subst h; simp
-    · subst h
-      have : ru = rw := by have := hu.row; rw [hw.row] at this; cases this; rfl
-      subst this
-      have : rowSlope ru / rowSlope ru = 1 := div_self (ne_of_gt (rowSlope_pos wu))
-      simp [this]
-  · simp [hc]
+  by_cases huw : u = w
+  · subst huw
+    have : ru = rw := by have := hu.row; rw [hw.row] at this; cases this; rfl
+    subst this
+    have : rowSlope ru / rowSlope ru = 1 := div_self (ne_of_gt (rowSlope_pos wu))
+    simp [this, convVal_self wu]
+  · by_cases hc : exp = 1 ∧ inD = false
+    · have h01 : ru.toBase.p = 0 ∧ rw.toBase.p = 0 := by
+        rcases hsc with h | h | h
+        · rw [hc.2] at h; cases h
+        · exact absurd hc.1 h
+        · exact h
+      simp only [huw, hc, and_self, or_true, ↓reduceIte]
+      rw [convVal_affine wu ww, convVal_zero ww h01.1 h01.2]
+      simp
+    · simp [huw, hc]
 
 /-! ### semantics -/
 
@@ -154,6 +179,22 @@ def hasType (db : Db) (qt : Sym) (e : Entry) : Bool :=
 def dim (db : Db) (qt : Sym) : List Entry → Int
   | [] => 0
   | e :: es => (if hasType db qt e then e.exp else 0) + dim db qt es
+
+/-- the shape `ObtainQuantity` turns into a simple quantity: one entry with exponent 1 -/
+def isSimpleShape : List Entry → Bool
+  | [e] => e.exp == 1
+  | _ => false
+
+/-- every entry of a dict that is not of the simple shape is scaled by the matching: the dict has several
+entries (`len(c) > 1`) or its only entry has an exponent other than 1 -/
+theorem scaled_of_not_simple {es : List Entry} (h : isSimpleShape es = false) :
+    ∀ e ∈ es, isDerivedDict es = true ∨ e.exp ≠ 1 := by
+  intro e he
+  match es, h, he with
+  | [x], h, he =>
+    simp only [List.mem_singleton] at he; subst he
+    right; intro h1; simp [isSimpleShape, h1] at h
+  | _ :: _ :: _, _, _ => left; simp [isDerivedDict]
 
 /-- no offset: the to-base map of the unit is a pure scaling -/
 def ScaleOnly (db : Db) (u : Sym) : Prop := ∀ r, db.unitBySym u = some r → r.toBase.p = 0
@@ -183,19 +224,20 @@ theorem lookupU_cons_ne {qt qt' u : Sym} (used : List (Sym × Sym)) (h : qt ≠ 
 /-- **the invariant of the matching loop** (one operand's pass), by induction over the entry list: on
 entries whose units are known the pass never fails; categories and exponents are untouched; afterwards every
 entry carries the unit recorded for its quantity type; units already recorded stay; every unit that occurs
-afterwards occurred before; and, when no unit involved has an offset, the base magnitude
-`value · Π slope(unit)^exp` is unchanged. -/
-theorem matchOne_spec {db : Db} (hdb : ∀ r ∈ db.units, r.WF) (P : Sym → Prop) :
+afterwards occurred before; and the base magnitude `value · Π slope(unit)^exp` is unchanged when the operand
+is derived (`inD`, every entry is then scaled), or no entry has exponent 1, or no unit involved has an offset. -/
+theorem matchOne_spec {db : Db} (hdb : ∀ r ∈ db.units, r.WF) (P : Sym → Prop) (inD : Bool) :
     ∀ (es : List Entry) (used : List (Sym × Sym)) (v : Rat),
       (∀ e ∈ es, EntryOK db e) → UsedOK db used →
       (∀ e ∈ es, P e.unit) → (∀ qt w, lookupU qt used = some w → P w) →
-      ∃ used' es' v', matchOne db used es v = .ok (used', es', v')
+      ∃ used' es' v', matchOne db inD used es v = .ok (used', es', v')
         ∧ UsedOK db used'
         ∧ (∀ qt w, lookupU qt used = some w → lookupU qt used' = some w)
         ∧ es'.map catExp = es.map catExp
         ∧ (∀ e' ∈ es', Good db used' e')
         ∧ (∀ e' ∈ es', P e'.unit) ∧ (∀ qt w, lookupU qt used' = some w → P w)
-        ∧ ((∀ u, P u → ScaleOnly db u) → v' * mag db es' = v * mag db es) := by
+        ∧ (((∀ e ∈ es, inD = true ∨ e.exp ≠ 1) ∨ (∀ u, P u → ScaleOnly db u)) →
+            v' * mag db es' = v * mag db es) := by
   intro es
   induction es with
   | nil =>
@@ -236,15 +278,17 @@ theorem matchOne_spec {db : Db} (hdb : ∀ r ∈ db.units, r.WF) (P : Sym → Pr
         · subst h; exact hpe e' (List.mem_cons_self ..)
         · exact hp1 e' h
       · intro hs
+        have hs' : (∀ x ∈ es, inD = true ∨ x.exp ≠ 1) ∨ (∀ u, P u → ScaleOnly db u) :=
+          hs.imp (fun h x hx => h x (List.mem_cons_of_mem _ hx)) id
         simp only [mag]
-        rw [mul_left_comm, hmag hs, mul_left_comm]
+        rw [mul_left_comm, hmag hs', mul_left_comm]
     | some w =>
       obtain ⟨rw', hrw, hqw⟩ := hu _ _ hl
       have hpw : P w := hpu _ _ hl
-      have hconv := convertMatchingExp_rows hdb hr hrw hqw e.exp v
+      have hconv := convertMatchingExp_rows hdb hr hrw hqw e.exp v inD
       obtain ⟨used', es', v', hm, hu', hmono, hce, hgood, hp1, hp2, hmag⟩ :=
-        ih used (if e.exp = 1 ∨ e.unit = w then convVal r rw' v else v * (rowSlope r / rowSlope rw') ^ e.exp)
-          hes' hu hpe' hpu
+        ih used (if e.unit = w ∨ (e.exp = 1 ∧ inD = false) then convVal r rw' v
+          else v * (rowSlope r / rowSlope rw') ^ e.exp) hes' hu hpe' hpu
       refine ⟨used', { e with unit := w } :: es', v', ?_, hu', hmono, ?_, ?_, ?_, hp2, ?_⟩
       · simp only [matchOne, hcat, hl, hconv, hm]
       · simp [hce, catExp]
@@ -257,12 +301,18 @@ theorem matchOne_spec {db : Db} (hdb : ∀ r ∈ db.units, r.WF) (P : Sym → Pr
         · subst h; exact hpw
         · exact hp1 e' h
       · intro hs
-        have h0 : r.toBase.p = 0 := hs _ (hpe e (List.mem_cons_self ..)) _ hr.row
-        have h1 : rw'.toBase.p = 0 := hs _ hpw _ hrw.row
-        have hsc := convertMatchingExp_scale hdb hr hrw hqw h0 h1 e.exp v
+        have hs' : (∀ x ∈ es, inD = true ∨ x.exp ≠ 1) ∨ (∀ u, P u → ScaleOnly db u) :=
+          hs.imp (fun h x hx => h x (List.mem_cons_of_mem _ hx)) id
+        have hcond : inD = true ∨ e.exp ≠ 1 ∨ (r.toBase.p = 0 ∧ rw'.toBase.p = 0) := by
+          rcases hs with h | h
+          · rcases h e (List.mem_cons_self ..) with h1 | h1
+            · exact Or.inl h1
+            · exact Or.inr (Or.inl h1)
+          · exact Or.inr (Or.inr ⟨h _ (hpe e (List.mem_cons_self ..)) _ hr.row, h _ hpw _ hrw.row⟩)
+        have hsc := convertMatchingExp_scale hdb hr hrw hqw e.exp v inD hcond
         rw [hconv] at hsc
         injection hsc with hsc
-        have hm' := hmag hs
+        have hm' := hmag hs'
         rw [hsc] at hm'
         simp only [mag]
         rw [mul_left_comm, hm', slope_of hr.row, slope_of hrw.row]
@@ -761,8 +811,10 @@ theorem slope_ne_zero {db : Db} (hdb : ∀ r ∈ db.units, r.WF) {u : Sym} {r : 
   rw [slope_of h.row]; exact ne_of_gt (rowSlope_pos (hdb _ (unitBySym_mem h.row)))
 
 /-- **the invariant of `_MatchQuantities`** (both passes): on operands whose units are known the matching
-never fails, keeps categories and exponents, leaves one unit per quantity type across BOTH operands, and keeps
-the base magnitude of each operand when no unit involved has an offset -/
+never fails, keeps categories and exponents, leaves one unit per quantity type across BOTH operands; the left
+operand's base magnitude is always kept (in the first pass only a dict with several entries is ever
+converted, and that is scaled), the right operand's when it is not of the simple shape or no unit involved has
+an offset -/
 theorem matchQuantities_spec {db : Db} (hdb : ∀ r ∈ db.units, r.WF) (P : Sym → Prop) (e1 e2 : List Entry) (v1 v2 : Rat)
     (h1 : ∀ e ∈ e1, EntryOK db e) (h2 : ∀ e ∈ e2, EntryOK db e)
     (p1 : ∀ e ∈ e1, P e.unit) (p2 : ∀ e ∈ e2, P e.unit) :
@@ -770,12 +822,22 @@ theorem matchQuantities_spec {db : Db} (hdb : ∀ r ∈ db.units, r.WF) (P : Sym
       ∧ e1'.map catExp = e1.map catExp ∧ e2'.map catExp = e2.map catExp
       ∧ (∀ e ∈ e1' ++ e2', Good db used e)
       ∧ (∀ e ∈ e1' ++ e2', P e.unit)
-      ∧ ((∀ u, P u → ScaleOnly db u) → w1 * mag db e1' = v1 * mag db e1 ∧ w2 * mag db e2' = v2 * mag db e2) := by
+      ∧ w1 * mag db e1' = v1 * mag db e1
+      ∧ ((isSimpleShape e2 = false ∨ (∀ u, P u → ScaleOnly db u)) → w2 * mag db e2' = v2 * mag db e2) := by
   obtain ⟨used1, e1', w1, hm1, hu1, _, hce1, hg1, hp1, hpu1, hmag1⟩ :=
-    matchOne_spec hdb P e1 [] v1 h1 (by intro qt w h; simp [lookupU] at h) p1 (by intro qt w h; simp [lookupU] at h)
+    matchOne_spec hdb P (isDerivedDict e1) e1 [] v1 h1 (by intro qt w h; simp [lookupU] at h) p1
+      (by intro qt w h; simp [lookupU] at h)
   obtain ⟨used2, e2', w2, hm2, _, hmono2, hce2, hg2, hp2, _, hmag2⟩ :=
-    matchOne_spec hdb P e2 used1 v2 h2 hu1 p2 hpu1
-  refine ⟨used2, e1', e2', w1, w2, ?_, hce1, hce2, ?_, ?_, ?_⟩
+    matchOne_spec hdb P (isDerivedDict e2) e2 used1 v2 h2 hu1 p2 hpu1
+  have hfirst : w1 * mag db e1' = v1 * mag db e1 := by
+    match e1, h1, hm1, hmag1 with
+    | [], _, hm1, _ => simp only [matchOne] at hm1; injection hm1 with hm1; simp only [Prod.mk.injEq] at hm1; obtain ⟨_, rfl, rfl⟩ := hm1; rfl
+    | [e], h1, hm1, _ =>
+      obtain ⟨r, _, hc⟩ := h1 e (by simp)
+      simp only [matchOne, hc, lookupU] at hm1
+      injection hm1 with hm1; simp only [Prod.mk.injEq] at hm1; obtain ⟨_, rfl, rfl⟩ := hm1; rfl
+    | _ :: _ :: _, _, _, hmag1 => exact hmag1 (Or.inl (fun _ _ => Or.inl (by simp [isDerivedDict])))
+  refine ⟨used2, e1', e2', w1, w2, ?_, hce1, hce2, ?_, ?_, hfirst, ?_⟩
   · simp only [matchQuantities, hm1, hm2]
   · intro e he
     rcases List.mem_append.mp he with h | h
@@ -785,7 +847,7 @@ theorem matchQuantities_spec {db : Db} (hdb : ∀ r ∈ db.units, r.WF) (P : Sym
     rcases List.mem_append.mp he with h | h
     · exact hp1 e h
     · exact hp2 e h
-  · intro hs; exact ⟨hmag1 hs, hmag2 hs⟩
+  · intro hs; exact hmag2 (hs.imp scaled_of_not_simple id)
 
 /-- what a successful `opNew` went through -/
 theorem opNew_inv {db : Db} {op : NewOp} {q1 q2 q : Quantity} {v1 v2 v : Rat}
@@ -823,8 +885,8 @@ theorem mag_ne_zero {db : Db} (L : List Entry) (h : ∀ e ∈ L, slope db e.unit
 
 /-- **the specification of `opNew`** on operands whose units are known (see the corollaries in Props/C04):
 dimension exponents add/subtract; the result again has known units, one unit per quantity type, no zero
-exponent, no caption; and, without offsets, the two matched values `w1 w2` that are combined carry the
-operands' base magnitudes (`M1 M2` are the magnitudes of the matched unit lists) -/
+exponent, no caption; and, when the right operand is not of the simple shape (it is then scaled entry by entry)
+or no unit has an offset, the two matched values `w1 w2` that are combined carry the operands' base magnitudes (`M1 M2` are the magnitudes of the matched unit lists) -/
 theorem opNew_spec {db : Db} (hdb : ∀ r ∈ db.units, r.WF) (P : Sym → Prop) {op : NewOp} {q1 q2 q : Quantity}
     {v1 v2 v : Rat} (h1 : ∀ e ∈ q1.entries, EntryOK db e) (h2 : ∀ e ∈ q2.entries, EntryOK db e)
     (p1 : ∀ e ∈ q1.entries, P e.unit) (p2 : ∀ e ∈ q2.entries, P e.unit)
@@ -832,11 +894,12 @@ theorem opNew_spec {db : Db} (hdb : ∀ r ∈ db.units, r.WF) (P : Sym → Prop)
     (∀ qt, dim db qt q.entries = dim db qt q1.entries + sgn op * dim db qt q2.entries)
     ∧ (∀ e ∈ q.entries, EntryOK db e) ∧ (∀ e ∈ q.entries, P e.unit) ∧ Unified db q.entries
     ∧ (∀ e ∈ q.entries, e.exp ≠ 0 ∧ unitTotal e.unit q.entries ≠ 0) ∧ q.caption = 0
-    ∧ ((∀ u, P u → ScaleOnly db u) → ∃ w1 w2 M1 M2, applyNew op w1 w2 = .ok v ∧ M1 ≠ 0 ∧ M2 ≠ 0
+    ∧ ((isSimpleShape q2.entries = false ∨ (∀ u, P u → ScaleOnly db u)) →
+        ∃ w1 w2 M1 M2, applyNew op w1 w2 = .ok v ∧ M1 ≠ 0 ∧ M2 ≠ 0
         ∧ w1 * M1 = v1 * mag db q1.entries ∧ w2 * M2 = v2 * mag db q2.entries
         ∧ mag db q.entries = M1 * M2 ^ (sgn op)) := by
   obtain ⟨e1, e2, w1, w2, m, hm, hmerge, hq, hv⟩ := opNew_inv h
-  obtain ⟨used, e1', e2', w1', w2', hm', hce1, hce2, hgood, hp, hmag⟩ :=
+  obtain ⟨used, e1', e2', w1', w2', hm', hce1, hce2, hgood, hp, hm1, hmag⟩ :=
     matchQuantities_spec hdb P q1.entries q2.entries v1 v2 h1 h2 p1 p2
   rw [hm] at hm'
   injection hm' with hm'
@@ -874,7 +937,7 @@ theorem opNew_spec {db : Db} (hdb : ∀ r ∈ db.units, r.WF) (P : Sym → Prop)
     have := mem_dropZero he
     exact ⟨this.2.1, by rw [unitTotal_dropZero]; exact this.2.2⟩
   · intro hs
-    obtain ⟨hm1, hm2⟩ := hmag hs
+    have hm2 := hmag hs
     have g1 : ∀ e ∈ e1, Good db used e := fun e he => hgood e (List.mem_append_left _ he)
     have g2 : ∀ e ∈ e2, Good db used e := fun e he => hgood e (List.mem_append_right _ he)
     refine ⟨w1, w2, mag db e1, mag db e2, hv, mag_ne_zero _ (hsl e1 g1), mag_ne_zero _ (hsl e2 g2), hm1, hm2, ?_⟩
@@ -983,7 +1046,7 @@ and the validation of `CreateDerived` are unreachable -/
 theorem opNew_ok {db : Db} (hdb : ∀ r ∈ db.units, r.WF) (op : NewOp) (q1 q2 : Quantity) (v1 v2 : Rat)
     (h1 : ∀ e ∈ q1.entries, EntryOK db e) (h2 : ∀ e ∈ q2.entries, EntryOK db e) :
     (∃ q v, opNew db op q1 q2 v1 v2 = .ok (q, v)) ∨ (op ≠ .mul ∧ opNew db op q1 q2 v1 v2 = .error .other) := by
-  obtain ⟨used, e1, e2, w1, w2, hm, _, _, hgood, _, _⟩ :=
+  obtain ⟨used, e1, e2, w1, w2, hm, _, _, hgood, _, _, _⟩ :=
     matchQuantities_spec hdb (fun _ => True) q1.entries q2.entries v1 v2 h1 h2 (fun _ _ => trivial) (fun _ _ => trivial)
   obtain ⟨m, hmerge⟩ := mergeAll_ok (expOp op) e2 e1 hgood
   have hgm : ∀ e ∈ dropZero m, EntryOK db e := by
@@ -1021,13 +1084,15 @@ theorem Known.mag_ne_zero {db : Db} (hdb : ∀ r ∈ db.units, r.WF) {q : Quanti
   Alg.mag_ne_zero _ (fun e he => by obtain ⟨r, hr, _⟩ := h e he; exact slope_ne_zero hdb hr)
 
 /-- the loop of `Scalar.__pow__`: after `k` more multiplications by `(q, v)` the exponents grew by `k` times
-those of `q` and the base magnitude by the `k`-th power -/
-theorem powLoop_spec {db : Db} (hdb : ∀ r ∈ db.units, r.WF) {q : Quantity} {v : Rat} (hq : Known db q)
-    (hs : ScaleOnlyQ db q) : ∀ (k : Nat) (rq : Quantity) (rv : Rat) (q' : Quantity) (v' : Rat),
-      Known db rq → ScaleOnlyQ db rq → powLoop db q v k rq rv = .ok (q', v') →
+those of `q` and the base magnitude by the `k`-th power (`q` not of the simple shape, or units `P` without
+offset) -/
+theorem powLoop_spec {db : Db} (hdb : ∀ r ∈ db.units, r.WF) (P : Sym → Prop) {q : Quantity} {v : Rat} (hq : Known db q)
+    (pq : ∀ e ∈ q.entries, P e.unit) (hs : isSimpleShape q.entries = false ∨ (∀ u, P u → ScaleOnly db u)) :
+    ∀ (k : Nat) (rq : Quantity) (rv : Rat) (q' : Quantity) (v' : Rat),
+      Known db rq → (∀ e ∈ rq.entries, P e.unit) → powLoop db q v k rq rv = .ok (q', v') →
       (∀ qt, dim db qt q'.entries = dim db qt rq.entries + k * dim db qt q.entries)
       ∧ baseMag db q' v' = baseMag db rq rv * baseMag db q v ^ k
-      ∧ Known db q' ∧ ScaleOnlyQ db q' := by
+      ∧ Known db q' ∧ (∀ e ∈ q'.entries, P e.unit) := by
   intro k
   induction k with
   | zero =>
@@ -1041,9 +1106,9 @@ theorem powLoop_spec {db : Db} (hdb : ∀ r ∈ db.units, r.WF) {q : Quantity} {
     split at h
     · cases h
     · rename_i rq1 rv1 hop
-      obtain ⟨hdim, hk1, hp1, _, _, _, hmag⟩ := opNew_spec hdb (ScaleOnly db) hk hq hsr hs hop
+      obtain ⟨hdim, hk1, hp1, _, _, _, hmag⟩ := opNew_spec hdb P hk hq hsr pq hop
       obtain ⟨hd, hm, hk', hs'⟩ := ih rq1 rv1 q' v' hk1 hp1 h
-      obtain ⟨w1, w2, M1, M2, hv, _, _, e1, e2, em⟩ := hmag (fun _ hu => hu)
+      obtain ⟨w1, w2, M1, M2, hv, _, _, e1, e2, em⟩ := hmag hs
       simp only [applyNew] at hv
       injection hv with hv
       refine ⟨?_, ?_, hk', hs'⟩
@@ -1061,6 +1126,21 @@ theorem powLoop_spec {db : Db} (hdb : ∀ r ∈ db.units, r.WF) {q : Quantity} {
             = (w1 * M1) * (w2 * M2) * (v * mag db q.entries) ^ k := by ring
           _ = rv * mag db rq.entries * ((v * mag db q.entries) ^ k * (v * mag db q.entries)) := by
               rw [e1, e2]; ring
+
+/-- when does the matching scale the right operand: it is not of the simple shape, or neither operand has a
+unit with an offset -/
+def Scales (db : Db) (q1 q2 : Quantity) : Prop :=
+  isSimpleShape q2.entries = false ∨ (ScaleOnlyQ db q1 ∧ ScaleOnlyQ db q2)
+
+/-- the magnitude clause of `opNew_spec` in the vocabulary of the property theorems -/
+theorem opNew_mag {db : Db} (hdb : ∀ r ∈ db.units, r.WF) {op : NewOp} {q1 q2 q : Quantity} {v1 v2 v : Rat}
+    (h1 : Known db q1) (h2 : Known db q2) (hs : Scales db q1 q2) (h : opNew db op q1 q2 v1 v2 = .ok (q, v)) :
+    ∃ w1 w2 M1 M2, applyNew op w1 w2 = .ok v ∧ M1 ≠ 0 ∧ M2 ≠ 0
+      ∧ w1 * M1 = v1 * mag db q1.entries ∧ w2 * M2 = v2 * mag db q2.entries
+      ∧ mag db q.entries = M1 * M2 ^ (sgn op) := by
+  rcases hs with hs | ⟨s1, s2⟩
+  · exact (opNew_spec hdb (fun _ => True) h1 h2 (fun _ _ => trivial) (fun _ _ => trivial) h).2.2.2.2.2.2 (Or.inl hs)
+  · exact (opNew_spec hdb (ScaleOnly db) h1 h2 s1 s2 h).2.2.2.2.2.2 (Or.inr (fun _ hu => hu))
 
 /-! ### decidable forms of the hypotheses (for the non-vacuity examples) -/
 
@@ -1110,11 +1190,6 @@ theorem scaleOnlyQ_of_b {db : Db} {q : Quantity} (h : q.entries.all (fun e => sc
 
 /-! ### canonical quantities and operands that are already matched -/
 
-/-- the shape `ObtainQuantity` turns into a simple quantity: one entry with exponent 1 -/
-def isSimpleShape : List Entry → Bool
-  | [e] => e.exp == 1
-  | _ => false
-
 /-- what `ObtainQuantity` returns for a dict of known units: the dict itself, flagged simple or derived -/
 theorem obtainFromDict_known {db : Db} (es : List Entry) (cap : Sym) (h : ∀ e ∈ es, EntryOK db e) :
     obtainFromDict db es cap = .ok ⟨es, cap, !isSimpleShape es⟩ := by
@@ -1163,9 +1238,9 @@ def Consistent (db : Db) (used : List (Sym × Sym)) (L : List Entry) : Prop :=
 
 /-- **the matching pass is the identity on an operand that has one unit per quantity type** (as long as the
 units recorded so far agree with it): no entry and not the value changes -/
-theorem matchOne_id {db : Db} : ∀ (es : List Entry) (used : List (Sym × Sym)),
+theorem matchOne_id {db : Db} (inD : Bool) : ∀ (es : List Entry) (used : List (Sym × Sym)),
     (∀ e ∈ es, EntryOK db e) → Unified db es → Consistent db used es →
-    ∃ used', (∀ v, matchOne db used es v = .ok (used', es, v))
+    ∃ used', (∀ v, matchOne db inD used es v = .ok (used', es, v))
       ∧ (∀ qt w, lookupU qt used = some w → lookupU qt used' = some w)
       ∧ (∀ qt w, lookupU qt used' = some w → lookupU qt used = some w ∨ ∃ e ∈ es, e.unit = w ∧ catQType db e.cat = .ok qt) := by
   intro es
@@ -1204,7 +1279,7 @@ theorem matchOne_id {db : Db} : ∀ (es : List Entry) (used : List (Sym × Sym))
     | some w =>
       have hw : w = e.unit := hC e (List.mem_cons_self ..) r.qtype hcat w hl
       subst hw
-      have hconv : ∀ v, convertMatchingExp db r.qtype e.unit e.unit e.exp v = .ok v := by
+      have hconv : ∀ v, convertMatchingExp db r.qtype e.unit e.unit e.exp v inD = .ok v := by
         intro v
         unfold convertMatchingExp Db.convert
         simp
@@ -1231,11 +1306,12 @@ theorem opSame_shape {db : Db} (hdb : ∀ r ∈ db.units, r.WF) (P : Sym → Pro
     (h1 : Operand db q1) (h2 : Known db q2) (p1 : ∀ e ∈ q1.entries, P e.unit) (p2 : ∀ e ∈ q2.entries, P e.unit) :
     ∃ used e2' w2, e2'.map catExp = q2.entries.map catExp
       ∧ (∀ e ∈ q1.entries ++ e2', Good db used e) ∧ (∀ e ∈ e2', P e.unit)
-      ∧ ((∀ u, P u → ScaleOnly db u) → w2 * mag db e2' = v2 * mag db q2.entries)
+      ∧ ((isSimpleShape q2.entries = false ∨ (∀ u, P u → ScaleOnly db u)) →
+          w2 * mag db e2' = v2 * mag db q2.entries)
       ∧ ∀ op x, opSame db op q1 q2 x v2 =
           if q1.eqv q2 then .ok (q1, applySame op x v2)
           else withValue (pickSame q1 ⟨e2', q2.caption, !isSimpleShape e2'⟩) (applySame op x w2) := by
-  obtain ⟨used1, hm1, _, hback⟩ := matchOne_id q1.entries [] h1.known h1.unified
+  obtain ⟨used1, hm1, _, hback⟩ := matchOne_id (isDerivedDict q1.entries) q1.entries [] h1.known h1.unified
     (by intro e _ qt _ w hw; simp [lookupU] at hw)
   have hu1 : UsedOK db used1 := by
     intro qt w hw
@@ -1252,16 +1328,16 @@ theorem opSame_shape {db : Db} (hdb : ∀ r ∈ db.units, r.WF) (P : Sym → Pro
   have hg1 : ∀ e ∈ q1.entries, Good db used1 e := by
     intro e he
     obtain ⟨used', es', v', hm', _, _, _, hgood, _⟩ :=
-      matchOne_spec hdb (fun _ => True) q1.entries [] 0 h1.known (by intro qt w h; simp [lookupU] at h)
-        (fun _ _ => trivial) (fun _ _ _ => trivial)
+      matchOne_spec hdb (fun _ => True) (isDerivedDict q1.entries) q1.entries [] 0 h1.known
+        (by intro qt w h; simp [lookupU] at h) (fun _ _ => trivial) (fun _ _ _ => trivial)
     rw [hm1 0] at hm'
     injection hm' with hm'
     simp only [Prod.mk.injEq] at hm'
     obtain ⟨rfl, rfl, _⟩ := hm'
     exact hgood e he
   obtain ⟨used2, e2', w2, hm2, _, hmono2, hce2, hg2, hp2, _, hmag2⟩ :=
-    matchOne_spec hdb P q2.entries used1 v2 h2 hu1 p2 hpu1
-  refine ⟨used2, e2', w2, hce2, ?_, hp2, hmag2, ?_⟩
+    matchOne_spec hdb P (isDerivedDict q2.entries) q2.entries used1 v2 h2 hu1 p2 hpu1
+  refine ⟨used2, e2', w2, hce2, ?_, hp2, fun hs => hmag2 (hs.imp scaled_of_not_simple id), ?_⟩
   · intro e he
     rcases List.mem_append.mp he with h | h
     · exact (hg1 e h).mono hmono2
@@ -1576,5 +1652,23 @@ theorem dim_eq_of_totals {db : Db} {used : List (Sym × Sym)} {L1 L2 : List Entr
       · simpa using hh
     rw [dim_zero_of_none L1 (fun e he => hn e (List.mem_append_left _ he)),
       dim_zero_of_none L2 (fun e he => hn e (List.mem_append_right _ he))]
+
+
+/-- `opSame_shape` when the matching scales the right operand (`Scales`): the matched right value carries the
+right operand's base magnitude -/
+theorem opSame_scaled {db : Db} (hdb : ∀ r ∈ db.units, r.WF) {q1 q2 : Quantity} (v2 : Rat)
+    (h1 : Operand db q1) (h2 : Known db q2) (hs : Scales db q1 q2) :
+    ∃ used e2' w2, e2'.map catExp = q2.entries.map catExp
+      ∧ (∀ e ∈ q1.entries ++ e2', Good db used e)
+      ∧ w2 * mag db e2' = v2 * mag db q2.entries
+      ∧ ∀ op x, opSame db op q1 q2 x v2 =
+          if q1.eqv q2 then .ok (q1, applySame op x v2)
+          else withValue (pickSame q1 ⟨e2', q2.caption, !isSimpleShape e2'⟩) (applySame op x w2) := by
+  rcases hs with hs | ⟨s1, s2⟩
+  · obtain ⟨used, e2', w2, a, b, _, c, d⟩ :=
+      opSame_shape hdb (fun _ => True) v2 h1 h2 (fun _ _ => trivial) (fun _ _ => trivial)
+    exact ⟨used, e2', w2, a, b, c (Or.inl hs), d⟩
+  · obtain ⟨used, e2', w2, a, b, _, c, d⟩ := opSame_shape hdb (ScaleOnly db) v2 h1 h2 s1 s2
+    exact ⟨used, e2', w2, a, b, c (Or.inr (fun _ hu => hu)), d⟩
 
 end Barril.Alg
